@@ -52,6 +52,8 @@ def summary(n) -> dict:
 
 
 def close(a, b, rel=1e-12) -> bool:
+    if rel == 0:
+        return a == b
     if a is None or b is None:
         return a is b
     if isinstance(a, (tuple, list)):
@@ -61,7 +63,9 @@ def close(a, b, rel=1e-12) -> bool:
     return abs(a - b) <= rel * max(abs(a), abs(b), 1e-300)
 
 
-def diff_summaries(s1: dict, s2: dict, rel=1e-12) -> list[str]:
+def diff_summaries(s1: dict, s2: dict, rel=0) -> list[str]:
+    """rel = 0: numbers that are merely COPIED through a document (areas, aspect-ratio bounds, rectangle coordinates, weights, centres of
+    modules without rectangles) must come back bit-identical (YAML prints repr-exact floats); only centres recomputed from rectangles get 1e-9"""
     out = []
     n1 = [m["name"] for m in s1["modules"]]
     n2 = [m["name"] for m in s2["modules"]]
@@ -73,7 +77,7 @@ def diff_summaries(s1: dict, s2: dict, rel=1e-12) -> list[str]:
             out.append(f"{nm}: kind {a['kind']} -> {b['kind']}")
         if set(a["area_regions"]) != set(b["area_regions"]) or any(not close(a["area_regions"][k], b["area_regions"][k], rel) for k in a["area_regions"] if k in b["area_regions"]):
             out.append(f"{nm}: per-region areas {a['area_regions']} -> {b['area_regions']}")
-        if not close(a["center"], b["center"], 1e-9):
+        if not close(a["center"], b["center"], 1e-9 if a["rectangles"] else rel):
             out.append(f"{nm}: centre {a['center']} -> {b['center']}")
         if not close(a["aspect_ratio"], b["aspect_ratio"], rel):
             out.append(f"{nm}: aspect ratio {a['aspect_ratio']} -> {b['aspect_ratio']}")
